@@ -217,7 +217,8 @@ fn c05_roundtrip(lib: &LefLibrary, via_save: bool) -> Result<(), String> {
     let txt = if via_save {
         let path = scratch_path("c05.lef");
         // the path already holds an older, longer file: save must replace it
-        let _ = std::fs::write(&path, "MACRO old END old\n".repeat(4000));
+        // (characters no LEF token can start with, so that anything left over cannot go unnoticed)
+        let _ = std::fs::write(&path, "_/[]{}\"@\n".repeat(8000));
         let r = lib.save(&path);
         let t = std::fs::read_to_string(&path).unwrap_or_default();
         let _ = std::fs::remove_file(&path);
